@@ -77,11 +77,15 @@ type IsoResult struct {
 }
 
 type isoState struct {
-	Next   int       `json:"next"` // first case index not yet covered by Result
-	Skip   []string  `json:"skip"` // "idx:target" pairs that killed a worker
-	Done   bool      `json:"done"`
-	Result IsoResult `json:"result"`
+	Next    int       `json:"next"` // first case index not yet covered by Result
+	Skip    []string  `json:"skip"` // "idx:target" pairs that killed a worker
+	Done    bool      `json:"done"`
+	Recycle bool      `json:"recycle"` // the worker exited on purpose after a large allocation
+	Result  IsoResult `json:"result"`
 }
+
+// a call that allocated more than this ends the worker (after a checkpoint); the parent starts a fresh one
+const isoRecycleAbove = 8 << 20
 
 func newIsoResult() IsoResult {
 	return IsoResult{Sigs: map[string]bool{}, Viol: map[string]*IsoViol{}, Counters: map[string]int64{}}
@@ -187,6 +191,8 @@ func IsoChildMain(cfg IsoConfig) {
 	if ns, err := strconv.ParseInt(os.Getenv("VERIF_ISO_DEADLINE"), 10, 64); err == nil && ns > 0 {
 		cfg.Deadline = time.Unix(0, ns) // the parent's absolute deadline, not a fresh budget per worker
 	}
+	runtime.GOMAXPROCS(1) // single-threaded enumeration; keeps GC cycles cheap on a loaded machine
+	debug.SetGCPercent(800)
 	statePath, progPath, _ := isoPaths(&cfg)
 	st, err := isoReadState(statePath)
 	if err != nil {
@@ -213,10 +219,9 @@ func IsoChildMain(cfg IsoConfig) {
 	from := st.Next
 	want := func(idx int) bool { return idx >= from && idx%cfg.NShards == cfg.Shard }
 	capped := false
-	checkNow := false
-	expensive := false // the previous case allocated a lot: checkpoint right after it, so a later death never re-runs it
+	expensive := false
 	cfg.Cases(want, func(c *FuzzCase) bool {
-		if (since%64 == 0 || checkNow) && time.Now().After(cfg.Deadline) {
+		if since%64 == 0 && time.Now().After(cfg.Deadline) {
 			res.Caps = append(res.Caps, fmt.Sprintf("%s shard %d: deadline hit at case %d", cfg.Tag, cfg.Shard, c.Idx))
 			st.Next = c.Idx
 			capped = true
@@ -258,25 +263,24 @@ func IsoChildMain(cfg IsoConfig) {
 					res.Samples = append(res.Samples, map[string]any{"target": tg.Name, "family": c.Family, "case": c.Name, "len": len(data), "outcome": class, "detail": detail})
 				}
 			}
-			if alloc > 32<<20 {
+			if alloc > isoRecycleAbove {
 				expensive = true
-			}
-			if alloc > 512<<20 {
-				// give the memory back before the next case so that every case starts from the same heap
-				in = nil
-				runtime.GC()
-				debug.FreeOSMemory()
 			}
 		}
 		res.Counters["cases_"+c.Family]++
 		since++
-		checkNow = expensive
 		if since%2000 == 0 || expensive {
-			expensive = false
 			st.Next = c.Idx + 1
+			st.Recycle = expensive
 			if err := isoWriteState(statePath, st); err != nil {
 				fmt.Fprintf(os.Stderr, "ISO-CHILD-ERROR write state: %v\n", err)
 				os.Exit(3)
+			}
+			if expensive {
+				// A large block was allocated. Re-using it would make the runtime zero (touch) it;
+				// a fresh worker gets untouched address space instead, so every large allocation
+				// costs the same and the heap every case starts from is the same.
+				os.Exit(0)
 			}
 		}
 		return true
@@ -364,6 +368,14 @@ func IsoRun(cfg IsoConfig, testRun string) (*IsoResult, error) {
 		}
 		if werr == nil && st.Done {
 			return &st.Result, nil
+		}
+		if werr == nil && st.Recycle {
+			st.Recycle = false
+			st.Result.Counters["worker_recycles"]++
+			if err := isoWriteState(statePath, st); err != nil {
+				return nil, err
+			}
+			continue
 		}
 		if strings.Contains(string(out), "ISO-CHILD-ERROR") {
 			return nil, fmt.Errorf("worker failed: %s", tail(out, 2000))
